@@ -163,6 +163,7 @@ def run(tier):
                 lim.append('extern %s la[%d]; unsigned long ls = sizeof la;' % (ety, n))
                 lim.append('extern %s lb[2][%d];' % (ety, n // 2))
                 lim.append('typedef %s lt[%d]; unsigned long lu = sizeof(lt) / 2;' % (ety, n))
+                lim.append('struct { %s big[%d]; int after; } *lsp; struct { char c; %s big[%d]; } *lsq;' % (ety, n, ety, n))
                 if n >= q // 2:
                     lim.append('%s lx[] = { [%d] = { 0 } };' % (ety, n))
                     lim.append('%s ly[4] = { [%d] = { 0 } };' % (ety, n))
